@@ -316,6 +316,16 @@ pub fn gen_c04(run: &mut Run, seed: u64, thorough: bool) {
                 p[inner_start + 31] = ty;
                 i.deliver(&p, nm);
             }
+            // type words whose LOW byte is a supported type but whose upper bytes are not zero (outer 2^248+4, 260; inner 2^255+0,
+            // 256+0): not the canonical encoding of any supported message
+            for (outer, idx, val, nm) in [(true, 0usize, 1u8, "outer-type-2^248+4"), (true, 30, 1, "outer-type-260"), (false, 0, 0x80, "inner-type-2^255"), (false, 30, 1, "inner-type-256")] {
+                let mut p = good.clone();
+                let chain_len = b"ethereum".len();
+                let inner_start = 96 + 32 + ((chain_len + 31) / 32) * 32 + 32;
+                let base = if outer { 0 } else { inner_start };
+                p[base + idx] |= val;
+                i.deliver(&p, nm);
+            }
             // origin chain untrusted / un-trusted again
             let untrusted = transfer_payload(&env, b"polygon", &tid, b"0xsrc", &dest, 7, None);
             i.deliver(&untrusted, "origin-never-trusted");
@@ -528,10 +538,20 @@ pub fn gen_c05(run: &mut Run, seed: u64, thorough: bool) {
                     let to = if with_data && i.g.rng.chance(2, 3) { recv.clone() } else { i.g.rng.pick(&users).clone() };
                     let data = if with_data { Some(i.g.rng.bytes(4)) } else { None };
                     let origin: &[u8] = if i.g.rng.chance(1, 8) { b"polygon" } else { b"ethereum" };
-                    let p = transfer_payload(&env, origin, &tid, b"0xRemoteSender", &addr_xdr(&env, &to), amt, data);
+                    let mut p = transfer_payload(&env, origin, &tid, b"0xRemoteSender", &addr_xdr(&env, &to), amt, data);
                     let dcl = if with_data { if to == recv { "-data-app" } else { "-data-plain" } } else { "" };
                     let ocl = if origin == b"polygon" { "-untrusted-origin" } else { "" };
-                    i.deliver(&p, &format!("inbound-{kind}-{ac}{dcl}{ocl}"));
+                    // an announced amount that does not fit: one high bit of the uint256 amount word set (bits 127, 128, 135,
+                    // 136, 200, 255) on an otherwise valid payload — must be refused, never credited modulo anything
+                    let mut big = "";
+                    if i.g.rng.chance(1, 6) {
+                        let inner_start = 96 + 32 + ((origin.len() + 31) / 32) * 32 + 32;
+                        let w = inner_start + 128; // the amount word (big-endian)
+                        let (idx, mask, nm) = *i.g.rng.pick(&[(16usize, 0x80u8, "-amount-bit127"), (15, 0x01, "-amount-bit128"), (15, 0x80, "-amount-bit135"), (14, 0x01, "-amount-bit136"), (6, 0x01, "-amount-bit200"), (0, 0x80, "-amount-bit255")]);
+                        p[w + idx] |= mask;
+                        big = nm;
+                    }
+                    i.deliver(&p, &format!("inbound-{kind}-{ac}{dcl}{ocl}{big}"));
                 }
                 9 => {
                     // trusted-chain change
@@ -552,6 +572,16 @@ pub fn gen_c05(run: &mut Run, seed: u64, thorough: bool) {
                     let amt = i.g.rng.range(1, 30);
                     i.op(&format!("tok.mint_from {} {} {} {} {}", a2.tok(), minter.tok(), user.tok(), amt, minter.tok()), "minter-own-mint");
                 }
+            }
+            i.sweep(&holders);
+        }
+        // directed: announced amounts that do not fit (one high bit of the uint256 amount word set), for a token of each kind
+        for (tid, kind) in [(ids[0].0, ids[0].1), (ids[2].0, ids[2].1)] {
+            for (idx, mask, nm) in [(16usize, 0x80u8, "bit127"), (15, 0x01, "bit128"), (15, 0x80, "bit135"), (14, 0x01, "bit136")] {
+                let mut p = transfer_payload(&env, b"ethereum", &tid, b"0xRemoteSender", &addr_xdr(&env, &users[0]), 3, None);
+                let inner_start = 96 + 32 + ((b"ethereum".len() + 31) / 32) * 32 + 32;
+                p[inner_start + 128 + idx] |= mask;
+                i.deliver(&p, &format!("inbound-{kind}-directed-amount-{nm}"));
             }
             i.sweep(&holders);
         }
